@@ -217,6 +217,22 @@ CLAIMS = {
     engine='z3-ast',
     technique='AST->SMT translation of the real function (z3), unsat verdict per path; '
               'models replayed on the sliced source'),
+ 'C18': dict(
+    text='Bounded symbolic execution of the real resource manager initialisation '
+         '(ResourceManager._init_from_scratch, _filter_nodes, _parse_nodefile, '
+         '_get_cores_per_node, _get_node_list and Slurm / LSF / Torque / Cobalt / '
+         'Fork.init_from_scratch): node list expression or node file lines (repeated '
+         'host lines, login/batch pseudo nodes), cores/GPUs per node, SMT factor, '
+         'requested and backup nodes, agent layout and blocked core/GPU sets are solver '
+         'variables; the resulting RMInfo is checked (one entry per distinct usable '
+         'host, unique indices, configured cell counts with exactly the blocked cells '
+         'DOWN, reserved nodes disjoint from the offered list, 1 <= |node_list| <= '
+         'requested nodes, registry round trip).',
+    note='Trusted: CrossHair/z3 path exhaustion; environment, node files, ssh probes '
+         'faked (all backup nodes reachable); ru.get_hostlist real. Bounds: <= 4 hosts, '
+         '<= 5 node file lines, <= 4 cores, <= 2 GPUs per node. PBSPro (qstat), CCM '
+         '(directory scan), Yarn and Debug RMs are outside the bound.',
+    design='4/C18'),
 }
 
 NOT_YET = 'check not built yet in this session (see DESIGN.md section 4 for the plan)'
